@@ -1,11 +1,56 @@
-//! C13 (not built yet)
-use crate::report::{Disagreement, Run};
-use serde_json::Value;
+//! C13 Deleting rows or columns shifts the rest and breaks only what was deleted.
+//!
+//! Same workbooks and observers as C12; operations: every deletion at positions 1–7 and against the last row/column
+//! with counts 1–2 (thorough 1–3). Oracle: the displacement model of `structural` (a range that loses one end is only
+//! required to be #REF! or to denote exactly the surviving cells).
 
-pub fn run(run: &mut Run) {
-    run.machinery_errors.push("C13: check not built yet".into());
+use crate::report::{Disagreement, Run};
+use crate::structural::{self as st, Axis, SOp, Spec};
+use serde_json::{json, Value};
+
+pub fn ops(thorough: bool, axis: Axis) -> Vec<SOp> {
+    let mut v = vec![];
+    let kmax = if thorough { 3 } else { 2 };
+    for p in 1..=st::STRIP {
+        for k in 1..=kmax {
+            v.push(SOp::Delete { p, k });
+        }
+    }
+    v.push(SOp::Delete { p: 7, k: 1 });
+    v.push(SOp::Delete { p: axis.last(), k: 1 });
+    v.push(SOp::Delete { p: axis.last() - 1, k: 2 });
+    v.push(SOp::Delete { p: axis.last() - 6, k: kmax });
+    v
 }
 
-pub fn replay(_case: &Value) -> Vec<Disagreement> {
-    vec![]
+pub fn run(run: &mut Run) {
+    let thorough = run.tier.thorough();
+    let specs = st::specs(thorough, true);
+    let f = move |s: &Spec| ops(thorough, s.axis);
+    let (out, errs) = st::run_family(&specs, &f, "C13", false);
+    run.sample(st::case_json("C13", &specs[0], st::Api::Model, &ops(thorough, specs[0].axis)[0]));
+    run.sample(st::case_json("C13", &specs[specs.len() / 2], st::Api::User, &ops(thorough, specs[specs.len() / 2].axis)[5]));
+    run.sample(st::case_json("C13", &specs[specs.len() - 1], st::Api::User, &ops(thorough, specs[specs.len() - 1].axis).last().unwrap()));
+    run.bound = json!({
+        "workbooks": specs.len(),
+        "orientations": ["rows", "columns"],
+        "variants": 3,
+        "interesting_contents": st::CONTENTS,
+        "interesting_cells_per_workbook": if thorough { "1 (all variants) and 2 (variant 0, unordered content pairs at every position pair)" } else { "1" },
+        "positions": "1..=7, last, last-1, last-6",
+        "counts": if thorough { "1..=3" } else { "1..=2" },
+        "apis": ["Model", "UserModel"],
+        "observers_per_workbook": "as C12",
+        "hash_seed": crate::env::hash_seed(),
+    });
+    run.rule = "every accepted deletion; each removes at least one data cell or observed position".into();
+    run.assume("reference comparison is on the cells denoted, not on spelling");
+    run.assume("a range that loses one end to the deletion is accepted as #REF! (anywhere in it) or as exactly the surviving cells; a range whose interior loses cells may change value (not compared)");
+    run.assume("values are compared only for observers that read no deleted cell, directly or through another observer");
+    run.assume("hash-map iteration order fixed by VERIF_HASH_SEED for this run (listed seed only)");
+    st::fill_run(run, out, errs);
+}
+
+pub fn replay(case: &Value) -> Vec<Disagreement> {
+    st::replay_case(case, false)
 }
